@@ -62,7 +62,9 @@ CountFinal(s) == [s EXCEPT !.finals[s.i] = @ + 1]
 \* what a final answer of the handler turns into
 Answer(s, a, n) ==
   CASE a.k = "Normal" ->
-         LET open == a.code < 400 /\ ~s.unread /\ ~s.eof
+         \* an answer in the 1xx range is written like any other but leaves the request without its final response: the
+         \* connection is not used again (and nothing further is written on it)
+         LET open == a.code >= 200 /\ a.code < 400 /\ ~s.unread /\ ~s.eof
              s1 == CountFinal([s EXCEPT !.files = 0, !.emit = ObsResp(s.i, a.code, "app")])
          IN IF open THEN [s1 EXCEPT !.pc = "LoopTop", !.i = s.i + 1] ELSE [s1 EXCEPT !.pc = "Closing"]
     [] a.k = "Panic" -> CountFinal(Close(s, ObsResp(s.i, 500, "lib")))        \* a panicking handler yields a 500
